@@ -18,7 +18,7 @@ func init() { Registry["C14"] = C14 }
 func C14(p *ir.Program, r *report.R) {
 	c := C{p, r}
 	r.Floor = 35
-	r.Explain = "Decided: in WALDecoder.Decode the payload is decoded only after its CRC32C matched the stored checksum and its length passed the size bound; every error result is classified — a read that hit io.EOF is passed through as end-of-log, everything that depends on the bytes read (checksum mismatch, impossible length, undecodable payload) is a DataCorruptionError, a plain error only for a non-EOF I/O failure; writer and reader agree on the frame (same CRC table object, big endian, crc at [0:4], length at [4:8], payload after, length = len(payload)); SearchForEndHeight reports found only for an EndHeightMessage with the requested height, visits files newest to oldest and skips only classified corruption; catchupReplay starts only after the marker of the previous height was found and none for the current one; finalizeCommit writes the marker with WriteSync (Write then Flush, both fatal on error) after CommitBlock. ADDED after seeded-change testing: SearchForEndHeight gives up before the oldest file only after a marker with 0 < h < height was seen; in catchupReplay a failed non-EOF Decode never leads back to the next Decode; a decoder using io.ReadFull must return ErrUnexpectedEOF as end-of-log. NOT decided: behaviour at every cut offset / byte flip as a value property, CRC collisions, rotation timing; that GroupReader.Read fills the buffer or returns an error (bufio semantics, trusted)."
+	r.Explain = "Decided: in WALDecoder.Decode the payload is decoded only after its CRC32C matched the stored checksum and its length passed the size bound; every error result is classified — a read that hit io.EOF is passed through as end-of-log, everything that depends on the bytes read (checksum mismatch, impossible length, undecodable payload) is a DataCorruptionError, a plain error only for a non-EOF I/O failure; writer and reader agree on the frame (same CRC table object, big endian, crc at [0:4], length at [4:8], payload after, length = len(payload)); SearchForEndHeight reports found only for an EndHeightMessage with the requested height, visits files newest to oldest and skips only classified corruption; catchupReplay starts only after the marker of the previous height was found and none for the current one; finalizeCommit writes the marker with WriteSync (Write then Flush, both fatal on error) after CommitBlock. ADDED after seeded-change testing: SearchForEndHeight gives up before the oldest file only after a marker with 0 < h < height was seen; in catchupReplay a failed non-EOF Decode never leads back to the next Decode; a decoder using io.ReadFull must return ErrUnexpectedEOF as end-of-log. Rounds 4-5: the group's buffered writer is flushed before it is reset or replaced; SearchForEndHeight leaves the scan of one reader only after io.EOF. NOT decided: behaviour at every cut offset / byte flip as a value property, CRC collisions, rotation timing; that GroupReader.Read fills the buffer or returns an error (bufio semantics, trusted)."
 	r.Trusted = []string{"hash/crc32", "autofile.GroupReader.Read returns a full buffer or an error", "libs/ser (C11)"}
 
 	dec := p.Func("consensus", "WALDecoder.Decode")
@@ -225,6 +225,45 @@ func C14(p *ir.Program, r *report.R) {
 						"the search continues past a failed record only for a DataCorruptionError and only when IgnoreDataCorruptionErrors is set")
 				}
 			}
+		}
+		// one reader is scanned to its END: a record that straddles a rotation boundary is decoded aligned
+		// only by the scan that started in the older file, so the scan moves on to the next (older) start
+		// file only when Decode reported io.EOF — not when the reader crossed into a newer file
+		{
+			var outer *ir.Loop
+			loops := ir.Loops(fn)
+			for i := range loops {
+				if outer == nil || len(loops[i].Body) > len(outer.Body) {
+					outer = &loops[i]
+				}
+			}
+			decs := ir.Calls(fn, "consensus.WALDecoder.Decode")
+			okScan := outer != nil && len(decs) == 1 && len(loops) >= 2
+			where := p.Pos(fn.Pos())
+			if okScan {
+				dec := decs[0].(ssa.Instruction)
+				isLatch := map[*ssa.BasicBlock]bool{}
+				for _, l := range outer.Latches {
+					isLatch[l] = true
+				}
+				eofA, eofB := "eq("+msg+"#1,io.EOF)", "eq(io.EOF,"+msg+"#1)"
+				found, hit, _ := ir.FindPath(ir.PathQuery{From: ir.At(dec),
+					Target: func(in ssa.Instruction) bool { return isLatch[in.Block()] },
+					Avoid:  func(in ssa.Instruction) bool { return in == dec },
+					AvoidEdge: func(atoms []string) bool {
+						for _, a := range atoms {
+							if a == eofA || a == eofB {
+								return true
+							}
+						}
+						return false
+					}})
+				if found {
+					okScan = false
+					where = p.InstrPos(hit)
+				}
+			}
+			r.Check("K2", sn+"/next-file-only-at-eof", where, okScan, "the scan of one reader is left for the next start file only after Decode returned io.EOF")
 		}
 		// the "older files cannot contain it" shortcut: only after a marker below the requested
 		// height was actually seen (a head file without any marker says nothing about older files)
